@@ -52,6 +52,7 @@ func init() {
 				{Scenario: "c08_rollback", Params: mustJSON(RollbackParams{}), Bound: 0, Shards: 8},
 				{Scenario: "c08_rollback", Params: mustJSON(RollbackParams{Fail: "failoverlog"}), Bound: 0, Shards: 2},
 				{Scenario: "c08_rollback", Params: mustJSON(RollbackParams{Fail: "reopen"}), Bound: 0, Shards: 2},
+				{Scenario: "reopen_life", Params: mustJSON(LifeParams{Oracle: "delivery", Segs: 2}), Bound: 0, Shards: 8, Note: "rollbacks answered to RE-opens of a running session, including a second rollback to the same position with no progress in between"},
 			}
 		},
 	})
